@@ -65,7 +65,25 @@ impl<'a, S: UtxoStore> InputSelector<'a, S> {
         }
     }
 
+    /// The search space is a best-effort window (it may be filled up with partial matches), so
+    /// the address and reference constraints of the query are enforced on the fetched UTxOs.
+    fn satisfies_constraints(utxo: &Utxo, criteria: &CanonicalQuery) -> bool {
+        let address_ok = criteria
+            .address
+            .as_ref()
+            .is_none_or(|address| utxo.address == *address);
+
+        let ref_ok = criteria.refs.is_empty() || criteria.refs.contains(&utxo.r#ref);
+
+        address_ok && ref_ok
+    }
+
     fn pick_from_set(utxos: UtxoSet, criteria: &CanonicalQuery) -> UtxoSet {
+        let utxos = utxos
+            .into_iter()
+            .filter(|x| Self::satisfies_constraints(x, criteria))
+            .collect();
+
         let target = criteria
             .min_amount
             .clone()
